@@ -181,13 +181,13 @@ def O_SYNC : Nat := 0x101000
 
 /-- error classes of Fs-level calls -/
 inductive FsErr where
-  | notexist | exist | perm | notdir | isdir | notempty | inval | closed | io | other
+  | notexist | exist | perm | notdir | isdir | notempty | inval | closed | io | eof | other
   deriving DecidableEq, Repr, Inhabited
 
 def FsErr.tag : FsErr → String
   | .notexist => "notexist" | .exist => "exist" | .perm => "perm" | .notdir => "notdir"
   | .isdir => "isdir" | .notempty => "notempty" | .inval => "inval" | .closed => "closed"
-  | .io => "io" | .other => "other"
+  | .io => "io" | .eof => "eof" | .other => "other"
 
 
 /-- result of an Fs-level or handle-level call, already canonical -/
